@@ -5,6 +5,7 @@ import (
 	"fmt"
 	"io"
 	"math"
+	"os"
 	"strings"
 
 	"github.com/gregoryv/mq"
@@ -24,7 +25,7 @@ func init() { register(c19{}) }
 func (c19) ID() string    { return "C19" }
 func (c19) Level() string { return "exploration" }
 func (c19) Rule() string {
-	return "String and Dump are called under a panic guard (a call that never returns is caught by the watchdog on CPU-time evidence) on: zero values and NewX() values of every exported type (packets, TopicFilter, UserProp, UserProperties, Malformed, ReasonCode, a CONNECT holding a zero-value will); packets whose strings have every length 0..639 (and around 1000, 4096, 16384, 65535) with a failure reason code; every intermediate state of the C12 setter histories; every packet ReadPacket accepts from the hostile corpus of C04 and every partially filled packet a failed UnmarshalBinary leaves behind (zero, NewX() and reused receivers); and exhaustively all 256 values of every rendered byte: reason code on each packet that renders one and ReasonCode.String, the fixed-header byte (decode with each first byte), CONNECT flags and CONNACK flags (decode with each flag byte), subscription options (TopicFilter.String and SUBSCRIBE with each option byte). Every 64th Dump is repeated with a writer that itself dumps another packet inside Write, every 16th with a writer that fails at the start, in the middle or just before the end of the output. Every reason code is also rendered together with whitespace-only, %-laden, NUL, invalid-UTF-8 and quoted strings in the string fields. Output sanity: String() of a packet is non-empty and names its size in bytes. distinct = (type, state digest); non-trivial = state other than the zero value"
+	return "String and Dump are called under a panic guard (a call that never returns is caught by the watchdog on CPU-time evidence) on: zero values and NewX() values of every exported type (packets, TopicFilter, UserProp, UserProperties, Malformed, ReasonCode, a CONNECT holding a zero-value will); packets whose strings have every length 0..639 (and around 1000, 4096, 16384, 65535), as well-formed text and as runs of one byte class (UTF-8 continuation bytes, lead bytes, NUL, 0xff, '%'), with a failure reason code; every intermediate state of the C12 setter histories; every packet ReadPacket accepts from the hostile corpus of C04 and every partially filled packet a failed UnmarshalBinary leaves behind (zero, NewX() and reused receivers); and exhaustively all 256 values of every rendered byte: reason code on each packet that renders one and ReasonCode.String, the fixed-header byte (decode with each first byte), CONNECT flags and CONNACK flags (decode with each flag byte), subscription options (TopicFilter.String and SUBSCRIBE with each option byte). Every 64th Dump is repeated with a writer that itself dumps another packet inside Write, every 16th with a writer that fails at the start, in the middle or just before the end of the output, and now and then with a closed *os.File. Every reason code is also rendered together with whitespace-only, %-laden, NUL, invalid-UTF-8 and quoted strings in the string fields. Output sanity: String() of a packet is non-empty and names its size in bytes. distinct = (type, state digest); non-trivial = state other than the zero value"
 }
 func (c19) Assumptions() []string {
 	return []string{"a typed-nil pointer is not a packet value", "Dump writes to a harness-owned bytes.Buffer"}
@@ -91,6 +92,16 @@ func render(c *run.Ctx, where string, p mq.Packet, origin func() map[string]inte
 			c.Violation("C19/panic/Dump-failing-writer/"+T, fmt.Sprintf("Dump panicked when its writer failed after %d bytes: %s", k, pan.String()), withStack(origin(), pan))
 			ok0 = false
 		}
+		if (renderCount/16)%4 == 1 {
+			// the log file was closed (rotated away) - a real *os.File
+			if f := closedFile(); f != nil {
+				if pan := mon.Guard(func() { mq.Dump(f, p) }); pan != nil {
+					c.Violation("C19/panic/Dump-closed-file/"+T, "Dump panicked when its writer was a closed *os.File: "+pan.String(), withStack(origin(), pan))
+					ok0 = false
+				}
+				c.Count("dump-writers", "closed-os-file", 1)
+			}
+		}
 		c.Eval(1)
 		c.Count("dump-writers", "failing", 1)
 	}
@@ -141,53 +152,62 @@ func c19Lengths(c *run.Ctx, part int) {
 		if L > 65535 {
 			continue
 		}
-		str := gen.UTF8(r, L)
-		for t := 1; t < 16; t++ {
-			p := bind.New(t)
-			what := fmt.Sprintf("strings of %d bytes on %s", L, tname(t))
-			mon.Guard(func() {
-				if rc, ok := p.(interface{ SetReasonCode(mq.ReasonCode) }); ok {
-					rc.SetReasonCode(mq.ReasonCode(0x80 + byte(L%35)))
-				}
-				if rs, ok := p.(interface{ SetReasonString(string) }); ok {
-					rs.SetReasonString(str)
-				}
-				if up, ok := p.(interface{ AddUserProp(...string) }); ok {
-					up.AddUserProp(str, str)
-				}
-				switch x := p.(type) {
-				case *mq.Connect:
-					x.SetClientID(str)
-					x.SetUsername(str)
-					x.SetAuthMethod(str)
-					w := mq.Pub(1, str, str)
-					w.SetContentType(str)
-					x.SetWill(w)
-				case *mq.ConnAck:
-					x.SetAssignedClientID(str)
-					x.SetResponseInformation(str)
-					x.SetServerReference(str)
-				case *mq.Publish:
-					x.SetTopicName(str)
-					x.SetCorrelationData([]byte(str))
-					x.SetResponseTopic(str)
-					x.SetPayload([]byte(str))
-				case *mq.Subscribe:
-					x.AddFilters(mq.NewTopicFilter(str, mq.Opt(L)))
-				case *mq.Unsubscribe:
-					x.AddFilter(str)
-				case *mq.SubAck:
-					x.AddReasonCode(mq.ReasonCode(L))
-				case *mq.Auth:
-					x.SetAuthMethod(str)
-				}
-			})
-			render(c, what, p, func() map[string]interface{} { return map[string]interface{}{"string_length": L, "type": tname(t)} })
+		strs := []string{gen.UTF8(r, L)}
+		if L > 0 {
+			// the same length made of one byte class: UTF-8 continuation bytes
+			// only, lead bytes without continuation, NUL, 0xff, '%' (code that
+			// looks for a rune boundary or a verb walks differently on each)
+			strs = append(strs, strings.Repeat(string([]byte{[]byte{0x80, 0xbf, 0xc2, 0xe0, 0xf0, 0xff, 0x00, '%', ' '}[L%9]}), L))
 		}
-		c.Distinct(run.Hash64("strlen", itoa(L)), true)
-	}
-	if part == 5 {
-		c.Sample(map[string]interface{}{"values": "reason string, user property, client id, user name, topic, filter, ... of every length 200..239 (this part), on every packet type, reason code >= 0x80", "operations": "String, Dump"})
+		for si, str := range strs {
+			_ = si
+			for t := 1; t < 16; t++ {
+				p := bind.New(t)
+				what := fmt.Sprintf("strings of %d bytes on %s", L, tname(t))
+				mon.Guard(func() {
+					if rc, ok := p.(interface{ SetReasonCode(mq.ReasonCode) }); ok {
+						rc.SetReasonCode(mq.ReasonCode(0x80 + byte(L%35)))
+					}
+					if rs, ok := p.(interface{ SetReasonString(string) }); ok {
+						rs.SetReasonString(str)
+					}
+					if up, ok := p.(interface{ AddUserProp(...string) }); ok {
+						up.AddUserProp(str, str)
+					}
+					switch x := p.(type) {
+					case *mq.Connect:
+						x.SetClientID(str)
+						x.SetUsername(str)
+						x.SetAuthMethod(str)
+						w := mq.Pub(1, str, str)
+						w.SetContentType(str)
+						x.SetWill(w)
+					case *mq.ConnAck:
+						x.SetAssignedClientID(str)
+						x.SetResponseInformation(str)
+						x.SetServerReference(str)
+					case *mq.Publish:
+						x.SetTopicName(str)
+						x.SetCorrelationData([]byte(str))
+						x.SetResponseTopic(str)
+						x.SetPayload([]byte(str))
+					case *mq.Subscribe:
+						x.AddFilters(mq.NewTopicFilter(str, mq.Opt(L)))
+					case *mq.Unsubscribe:
+						x.AddFilter(str)
+					case *mq.SubAck:
+						x.AddReasonCode(mq.ReasonCode(L))
+					case *mq.Auth:
+						x.SetAuthMethod(str)
+					}
+				})
+				render(c, what, p, func() map[string]interface{} { return map[string]interface{}{"string_length": L, "type": tname(t)} })
+			}
+			c.Distinct(run.Hash64("strlen", itoa(L)), true)
+		}
+		if part == 5 {
+			c.Sample(map[string]interface{}{"values": "reason string, user property, client id, user name, topic, filter, ... of every length 200..239 (this part), on every packet type, reason code >= 0x80", "operations": "String, Dump"})
+		}
 	}
 }
 
@@ -507,4 +527,21 @@ func c19Hostile(c *run.Ctx, hphase, idx int) {
 		c.Sample(map[string]interface{}{"hostile_phase": hostileNames[hphase], "inputs": n, "rendered": "accepted packets and packets left behind by UnmarshalBinary"})
 	}
 	_ = gen.Small
+}
+
+var closedFileOnce *os.File
+
+// closedFile returns a *os.File that has been closed (every write fails with
+// os.ErrClosed, Stat fails too).
+func closedFile() *os.File {
+	if closedFileOnce == nil {
+		f, err := os.CreateTemp("", "verif-closed-*")
+		if err != nil {
+			return nil
+		}
+		os.Remove(f.Name())
+		f.Close()
+		closedFileOnce = f
+	}
+	return closedFileOnce
 }
